@@ -37,7 +37,23 @@ def specReadN (x224 : Bool) : Nat → Bytes → List String → String
       | .fastShort a p => specReadN x224 k rest (("F" ++ toString (secFlags a) ++ ":" ++ hexOrDash p) :: acc)
       | .fastLong a p => specReadN x224 k rest (("F" ++ toString (secFlags a) ++ ":" ++ hexOrDash p) :: acc)
 
+/-- `tpkt_tls`: the byte stream reaches the deframer through TLS; record boundaries (the
+    last argument) are invisible to it, the stream ends after the data -/
+def c13tls (toks : List String) : String :=
+  match toks with
+  | [_, k, d, _] =>
+    match k.toNat?, ofHex d with
+    | some k, some d =>
+      let r := readN Tpkt.read k ⟨d, []⟩ []
+      let strip := fun (s : String) =>
+        let items := s.splitOn ";"
+        ";".intercalate (items.dropLast ++ [if (items.getLast?.getD "").startsWith "left=" then "ok" else (items.getLast?.getD "")])
+      strip (showReadN r) ++ "\t" ++ strip (specReadN false k d [])
+    | _, _ => "bad-case"
+  | _ => "bad-case"
+
 def c13 (toks : List String) : String :=
+  if toks.head? = some "tpkt_tls" then c13tls toks else
   match toks with
   | [op, k, d, s] =>
     match k.toNat?, ofHex d, parseNatList s with
